@@ -76,6 +76,9 @@ def _regex_new_literal(t):
         lit = P.strip(t[2][0])
         if lit[0] == "str":
             return lit[1]
+        # a pattern assembled from literals (`format!("^{}{}$", SHAPE, WEIGHT)`): folded to its text
+        from . import fmt
+        return fmt.fold_str(t[2][0])
     return None
 
 
@@ -86,9 +89,15 @@ def regex_literal(pr, op, F=None):
     lit = _regex_new_literal(t)
     if lit is not None or F is None:
         return lit
-    for _ in range(4):
+    field = None
+    for _ in range(5):
         if t[0] == "call" and t[1].rsplit("::", 1)[-1] in ("deref", "force", "borrow", "as_ref") and t[2]:
             t = P.strip(t[2][0], calls=False)
+            continue
+        if t[0] == "field" and field is None and isinstance(t[2], int):
+            # one of several regexes kept in a once-initialised struct (`static P: LazyLock<Patterns>`; `P.single_pair`)
+            field = t[2]
+            t = P.strip(t[1], calls=False)
             continue
         break
     clo = None
@@ -100,7 +109,13 @@ def regex_literal(pr, op, F=None):
             clo = F.fns.get(c[1][len("closure:"):])
     if clo is None or clo.cfg.has_loops():
         return None
-    return _regex_new_literal(P.Prov(clo).local(0))
+    built = P.Prov(clo).local(0)
+    if field is not None:
+        b_ = P.strip(built, calls=False)
+        if not (b_[0] == "agg" and b_[1].startswith("adt:") and field < len(b_[2])):
+            return None
+        built = b_[2][field]
+    return _regex_new_literal(built)
 
 
 class StrFacts:
